@@ -538,3 +538,5 @@ def _run(world: World, plan):
     sig = [sorted((u['status'], u['friend'], u['privileged'], u['files']) for u in plan['users']),
            [v for (_, v) in limit_hist], [(cls, waiting) for (_, _, cls, waiting) in init_log][:12]]
     return common.finish(world, nontrivial, sig)
+
+INFO['rule'] += ' Round-5 additions: the slot limit is also changed by replacing settings.transfers.limits or settings.transfers as a whole.'
